@@ -18,4 +18,9 @@ ProbeNoMaxView     == \A r \in RM : Honest(r) => rmState[r].view < MaxView
 ProbeNoDoCV1       == \A m \in msgs : m.type /= "DoChangeView1"
 ProbeNoDoCV2       == \A m \in msgs : m.type /= "DoChangeView2"
 ProbeNoMigratedAccept == \A r \in RM : ~(rmState[r].type = "blockAccepted" /\ blockAccepted[r] < rmState[r].view)
+
+\* focus constraints (harness C20): prune behaviours in which somebody commits before view 1 / view 2,
+\* so that random simulation spends its budget on decisions taken after one or two view changes
+FocusLateViews1 == \A r \in RM : rmState[r].type \in {"commitSent", "commitAckSent", "blockAccepted"} => rmState[r].view >= 1
+FocusLateViews2 == \A r \in RM : rmState[r].type \in {"commitSent", "commitAckSent", "blockAccepted"} => rmState[r].view >= 2
 =============================================================================
